@@ -451,6 +451,9 @@ def solve_box_like(
     flank_angle: Optional[float],
 ):
     _check_finite(**locals())
+    if ground_width is not None and even_ground_width is not None:
+        raise TypeError("give either ground_width or even_ground_width, not both")
+
     alpha4 = np.arccos(1 - indent / (r2 + r4))
 
     if flank_angle is None:
